@@ -141,7 +141,8 @@ Add(a, b) == PAdd(a, b)
 Sub(a, b) == PSub(a, b)                    \* requires a >= b
 Mul(a, b) == PMul(a, b)
 Div(a, b) == PDiv(a, b)                    \* requires b # 0
-Mod(a, b) == PMod(a, b)                    \* requires b # 0
+Rem(a, b) == PMod(a, b)                    \* requires b # 0  (accelerated; the Java name "Mod" is reserved by TLC for %)
+Mod(a, b) == Rem(a, b)
 AddMod(a, b, m) == PAddMod(a, b, m)
 SubMod(a, b, m) == PSubMod(a, b, m)
 MulMod(a, b, m) == PMulMod(a, b, m)
